@@ -14,6 +14,7 @@ import Lockable.Props.C02
 import Lockable.Props.C04
 import Lockable.Proofs.SpecTrace
 import Lockable.Proofs.Closed
+import Lockable.Proofs.LinearOut
 namespace Lockable
 
 /-- the key is neither locked nor awaited: no guard for it, and no pending acquisition was handed or is queued for it -/
@@ -289,5 +290,25 @@ theorem C05_linearizable_sched (kind : Kind) (threads : List Thread) (sched : Li
     ∃ es, applyEvs Spec.init es =
       some (absSpec (sched.foldl (fun sc t => (sc.step t).1) ({ s := State.init kind, threads := threads } : Sched)).s) :=
   sched_transfer kind (fun s => ∃ es, applyEvs Spec.init es = some (absSpec s)) (fun as => ⟨_, lin_reachable kind as⟩) threads sched
+
+/-- **What the calls answer is what the specification answers** (Theorem C, outputs), in every reachable state of the
+concurrent core: an uncontended wait gets the key at once iff the key is free in the abstraction (no guard, nobody
+waiting) and queues iff it is not; a pending acquisition completes iff the key has no guard and the waiter is first
+in line; a guard method returns and stores what the plain map returns and stores. (`C05_try_iff_free` is the try case.) -/
+theorem C05_outputs_from_spec (kind : Kind) (as : List Act) (h : Nat) (hd : Handle)
+    (hh : (run (State.init kind) as).hs h = some hd) :
+    let s := run (State.init kind) as
+    (hd.st = .replica →
+      ((enqueue s h).2 = .bool true ↔ (absSpec s).free hd.key = true) ∧
+      ((enqueue s h).2 = .bool false ↔ (absSpec s).free hd.key = false)) ∧
+    (hd.st = .queued →
+      ((acquire s h).2 = .bool true ↔ ((absSpec s).held hd.key = none ∧ ((absSpec s).waiting hd.key).head? = some h))) ∧
+    (hd.st = .holding → ∀ g,
+      (gop s h g).2 = (match g with | .key => Out.nat hd.key | _ => (specOp ((absSpec s).vals hd.key) g).2) ∧
+      absVal (gop s h g).1 hd.key = (specOp ((absSpec s).vals hd.key) g).1) := by
+  intro s
+  have hi := inv_reachable kind as
+  exact ⟨fun e => enqueue_iff_free s hi h hd hh e, fun e => acquire_iff_grantable s hi h hd hh e,
+    fun e g => gop_out_spec s hi h hd g hh e⟩
 
 end Lockable
